@@ -372,6 +372,26 @@ func checkFraming(p *Prog, r *Report) {
 			"the goroutine defers close(done); the handler selects on it and defers conn.Close()",
 			"when the reader goroutine ends (undecodable message) the connection is not closed: the exporter keeps sending into the void", true)
 	}
+	// the stream reader waits for the next message for as long as the exporter is silent: no read deadline is ever armed on
+	// the client connection (a deadline is absolute and stays armed: once it passes, an idle but perfectly valid stream gets
+	// a read error and is closed; stopping is done by closing the connection, not by deadlines)
+	for _, f := range p.RepoFns {
+		if !keyInPkg(fnKey(f), "pkg/collector") || strings.Contains(fnKey(f), "fake") {
+			continue
+		}
+		eachInstr(f, func(in ssa.Instruction) {
+			c := callOf(in)
+			if c == nil || !c.IsInvoke() {
+				return
+			}
+			m := c.Method.Name()
+			if m == "SetReadDeadline" || m == "SetDeadline" || m == "SetWriteDeadline" {
+				r.Violation("R-FRAME.no-deadline", fmt.Sprintf("%s: %s on a collector connection", fnKey(f), m), p.instrPos(in),
+					"a deadline is armed on a connection of the collecting process: unless it is cleared after every single read it fires while the exporter is merely idle, the read fails and the connection of a valid stream is closed (later messages are never delivered)")
+			}
+		})
+	}
+	r.OK("R-FRAME.no-deadline", "pkg/collector: no deadline is armed on client connections", "pkg/collector", "checked every method call on connections in pkg/collector", false)
 	if nReaders == 0 {
 		r.Undecided("R-FRAME", "anchor: stream reader calling decodePacket", "pkg/collector/tcp.go", "no caller of decodePacket uses a bufio.Reader")
 	}
